@@ -289,3 +289,62 @@ def search_limits(r, epg, ncase):
         if probs:
             dis.append({"kind": "c06-limits", "problems": probs, "input": {"n": n, "tau": tau, "T1": T1.tolist(), "T2": T2.tolist(), "g": g.tolist()}})
     return checked, dis
+
+
+def search_grid(r, epg, ncase):
+    """compartments on axis 0 and TWO further operator axes (flip angles on axis 1, mixing times on axis 2, either of them
+    possibly a singleton): every (i, j) entry of X against exp(tau_j (-K + R)) applied to the states of entry i"""
+    dis, checked = [], 0
+    for _ in range(ncase):
+        n = int(r.integers(2, 4))
+        dens = r.uniform(0.3, 2.0, size=n)
+        K = gen_kinetic(r, n, dens)
+        B1 = int(r.integers(1, 4)); B2 = int(r.integers(2, 4))
+        alpha = r.uniform(20, 150, size=B1)
+        taus = r.uniform(0.5, 30, size=B2)
+        same_T = bool(r.random() < 0.3)
+        T1 = r.uniform(200, 2000, size=n); T2 = T1.copy() if same_T else r.uniform(10, 200, size=n); g = r.uniform(-0.05, 0.05, size=n)
+        form = ["all", "g_only", "none"][r.integers(3)]
+        kw = {"all": {"T1": T1[:, None, None], "T2": T2[:, None, None], "g": g[:, None, None]},
+              "g_only": {"g": g[:, None, None]}, "none": {}}[form]
+        inp = {"n": n, "dens": dens.tolist(), "K": K.tolist(), "taus": taus.tolist(), "alpha": alpha.tolist(), "form": form,
+               "T1": T1.tolist(), "T2": T2.tolist(), "g": g.tolist()}
+        try:
+            with warnings.catch_warnings():
+                warnings.simplefilter("ignore")
+                sm0 = epg.StateMatrix(density=dens[:, None, None] * np.ones((1, B1, 1)))
+                sm0 = epg.S(1)(epg.T(alpha[None, :, None], 20.0)(sm0))
+                sm0 = epg.T(35.0, -40.0)(sm0)
+                X = epg.X(taus[None, None, :], K, **kw)
+                st0 = np.asarray(sm0.states).copy()
+                eq = np.asarray(sm0.equilibrium).copy()
+                st1 = np.asarray(X(sm0).states)
+        except Exception as exc:
+            dis.append({"kind": "c06-grid", "problems": [("raised", repr(exc)[:300])], "input": inp})
+            continue
+        checked += 1
+        probs = []
+        rT1 = 1 / T1 if form == "all" else np.zeros(n)
+        rT2 = 1 / T2 if form == "all" else np.zeros(n)
+        gg = g if form in ("all", "g_only") else np.zeros(n)
+        if st1.shape[:3] != (n, B1, B2):
+            probs.append(("shape of the result", list(st1.shape), [n, B1, B2]))
+        else:
+            st0b = np.broadcast_to(st0, (n, B1, 1) + st0.shape[3:])
+            eqb = np.broadcast_to(eq, (n, B1, 1) + eq.shape[3:])
+            for j in range(B2):
+                MT = expm_ref(taus[j] * (-K + np.diag(-rT2 + 2j * np.pi * gg)))
+                ML = expm_ref(taus[j] * (-K + np.diag(-rT1)))
+                d = np.moveaxis((st0b - eqb)[:, :, 0], 0, -1)       # (B1, nstate, 3, n)
+                ref = np.empty_like(d)
+                ref[..., 0, :] = d[..., 0, :] @ MT.T
+                ref[..., 1, :] = d[..., 1, :] @ MT.conj().T
+                ref[..., 2, :] = d[..., 2, :] @ ML.T
+                ref = np.moveaxis(ref, -1, 0) + eqb[:, :, 0]
+                err = float(np.max(np.abs(ref - st1[:, :, j])))
+                if err > 1e-8:
+                    probs.append((f"mixing time {j}: X differs from exp(tau(-K+R))(M-Meq)+Meq", err))
+                    break
+        if probs:
+            dis.append({"kind": "c06-grid", "problems": probs, "input": inp})
+    return checked, dis
